@@ -167,6 +167,28 @@ func c09Jobs(tier string) []c09job {
 			jobs = append(jobs, c09job{Name: "hostile-" + s.Name, Text: s.Text, Flags: f, OutForm: forms[(hi+fi)%4], HasSyntax: hs, Compile: true})
 		}
 	}
+	// (3b) byte sweep: every byte value (quick: all control bytes, all ASCII punctuation, DEL and the boundary bytes of
+	// UTF-8: continuation, over-long lead, lead bytes of 2/3/4-byte sequences, surrogate lead, beyond U+10FFFF, 0xFF)
+	// inside an interpreted string literal terminal, a raw string literal terminal and a character literal. Whatever
+	// gocc makes of the file: if it exits 0, what it wrote must compile.
+	for b := 0; b < 256; b++ {
+		if tier != "thorough" {
+			punct := b >= 0x20 && b < 0x7f && !(b >= '0' && b <= '9' || b >= 'a' && b <= 'z' || b >= 'A' && b <= 'Z')
+			edge := b < 0x20 || b == 0x7f || b == 0x80 || b == 0xbf || b == 0xc0 || b == 0xc1 || b == 0xc2 || b == 0xdf || b == 0xe0 || b == 0xed || b == 0xef || b == 0xf0 || b == 0xf4 || b == 0xf5 || b == 0xfe || b == 0xff
+			if !punct && !edge {
+				continue
+			}
+		}
+		c := string([]byte{byte(b)})
+		texts := []string{
+			"a : 'a' ;\nS : a \"p" + c + "q\" | \"p" + c + "q\" S ;\n",
+			"a : 'a' ;\nS : a `p" + c + "q` ;\n",
+			"t : 'a' '" + c + "' ;\nu : 'b' ;\n",
+		}
+		for k, text := range texts {
+			jobs = append(jobs, c09job{Name: fmt.Sprintf("byte-%02x-%d", b, k), Text: text, Flags: flagSubsets(false)[(b+k)%8], OutForm: forms[(b+k)%4], HasSyntax: -1, Compile: true})
+		}
+	}
 	// (4) token-level mutants (all classes): termination; well-formed ones with untouched actions must compile
 	for _, m := range classifyMutants(tier) {
 		j := c09job{Name: "mutant-" + m.Seed + "/" + m.M.Desc, Text: m.Text, Flags: []string{"-a"}, OutForm: "sub", HasSyntax: hasSyntaxPart(m.Text)}
